@@ -99,6 +99,21 @@ class Prop(PropBase):
         try:
             n_arg = (case["n"], np.int64(case["n"]), case["n"], np.uint8(case["n"]) if 0 <= case["n"] < 200 else case["n"])[case.get("seed", 0) % 4]
             y = pb.snippet(z, arg, n_arg)
+            if case.get("seed", 0) % 3 == 0 and len(z) > 0:
+                try:
+                    from .. import lazy
+                    zd = lazy.dask_copy(np, z)
+                    zo = lazy.dask_copy(np, z, data=np.asarray(z.data) * 2 + 1)
+                    ls = [pb.snippet(zd, arg, n_arg), pb.snippet(zo, arg, n_arg)]
+                    if case["n"] >= 1:
+                        ls.append(pb.snippet(zd, arg, case["n"] - 1))
+                    ok, alone = lazy.joint_equal(np, [l.data for l in ls])
+                    scale = float(np.max(np.abs(np.asarray(z.data)))) or 1.0
+                    out["lazy_ok"] = bool(ok and alone[0].shape == np.asarray(y.data).shape
+                                          and np.allclose(alone[0], np.asarray(y.data), rtol=1e-4, atol=1e-4 * scale)
+                                          and bool(ls[0].start_time == y.start_time if y.start_time is not None else ls[0].start_time is None))
+                except Exception as e:  # noqa
+                    out["lazy_err"] = err_name(e)
         except Exception as e:
             out["err"] = err_name(e)
             return out
@@ -169,6 +184,9 @@ class Prop(PropBase):
     # ------------------------------------------------------------- property oracle
     def spec_violation(self, case, code):
         n, L = case["n"], case["L"]
+        if "err" not in code and (code.get("lazy_ok") is False or "lazy_err" in code):
+            return ("snippet on Dask-backed copies of the signal (alone and evaluated in one graph) differs from the NumPy-backed "
+                    f"result ({code.get('lazy_err', 'values/stamp')})")
         if n < 0:
             return None if code.get("err") == "ValueError" else f"negative n gave {code.get('err', 'a result')}"
         if case["form"] == "time" and case["t0"] is None:
